@@ -10,7 +10,7 @@ EXPLANATION = (
     "of any annotator's feature table, whether that feature is enabled or not (raises-iff clauses, loop invariant of the validation loop); (b) a "
     "disabled feature is not written by edits - RegionpropsAnnotator.update / EdgeAnnotator.update write exactly the ACTIVE keys (their ensures name "
     "the active flag of every table entry) and the primitives' contracts guard every recomputed attribute by that flag; the lineage rewrite of the "
-    "relabel walk is guarded by the lineage flag in its contract. BOUNDED STAND-INS (not proofs): enable_features / disable_features and the registry "
+    "relabel walk happens iff the lineage feature is enabled (proved of the real walk body). BOUNDED STAND-INS (not proofs): enable_features / disable_features and the registry "
     "(registry = static + enabled after every step; unknown key -> KeyError and nothing changed; values equal the reference after enabling with "
     "recomputation) on seeded random interleavings of enable/disable/edits/undo/redo; the walk with the lineage feature switched off.")
 ASSUMPTIONS = ["the track id of a SolutionTracks is never disabled (with it off the TrackAnnotator ignores every edit; outside the domain of C04-C06)",
@@ -20,7 +20,8 @@ NOT_UNDER_CONTRACT = ["Tracks.enable_features / disable_features", "AnnotatorReg
 
 
 def units(tier):
-    return (primitives.units(names=["UpdateNodeAttrsC"]) + primitives.units(SEGP, names=["UpdateNodeAttrsC"]) + segprims.annotator_units())
+    from contracts import walk
+    return walk.units() + (primitives.units(names=["UpdateNodeAttrsC"]) + primitives.units(SEGP, names=["UpdateNodeAttrsC"]) + segprims.annotator_units())
 
 
 def bounded(tier, seed):
